@@ -16,10 +16,16 @@ pub fn mod_(
     let x = quantity_arg!(args);
     let y = quantity_arg!(args);
 
-    let x_value = x.unsafe_value().to_f64();
-    let y_value = y.convert_to(x.unit()).unwrap().unsafe_value().to_f64();
+    // A (polymorphic) zero can be expressed in any unit
+    let unit = if x.is_zero() { y.unit() } else { x.unit() }.clone();
+    let to_unit = |q: &Quantity| {
+        q.convert_to(&unit)
+            .map_err(|e| Box::new(RuntimeErrorKind::QuantityError(e)))
+    };
+    let x_value = to_unit(&x)?.unsafe_value().to_f64();
+    let y_value = to_unit(&y)?.unsafe_value().to_f64();
 
-    return_quantity!(x_value.rem_euclid(y_value), x.unit().clone())
+    return_quantity!(x_value.rem_euclid(y_value), unit)
 }
 
 // A simple math function with signature 'Fn[(Scalar) -> Scalar]'
@@ -66,8 +72,14 @@ pub fn atan2(
     let y = quantity_arg!(args);
     let x = quantity_arg!(args);
 
-    let y_value = y.unsafe_value().to_f64();
-    let x_value = x.convert_to(y.unit()).unwrap().unsafe_value().to_f64();
+    // A (polymorphic) zero can be expressed in any unit
+    let unit = if y.is_zero() { x.unit() } else { y.unit() }.clone();
+    let to_unit = |q: &Quantity| {
+        q.convert_to(&unit)
+            .map_err(|e| Box::new(RuntimeErrorKind::QuantityError(e)))
+    };
+    let y_value = to_unit(&y)?.unsafe_value().to_f64();
+    let x_value = to_unit(&x)?.unsafe_value().to_f64();
 
     return_scalar!(y_value.atan2(x_value))
 }
